@@ -115,6 +115,7 @@ type sdResult struct {
 	Phase string // "" = ok, else "handshake" / "echo"
 	Err   string
 	Stale string
+	Sent  bool // did the client put a datagram on the wire during this dial
 }
 
 func sdServe(ctx context.Context, e *simEnv) {
@@ -240,6 +241,13 @@ func runOneSimDial(c sdCase) (res []sdResult, leak string) {
 				if c.Spec != nil {
 					res[k].Stale = sdStale(e, from)
 				}
+				e.Router.mu.Lock()
+				for _, d := range e.Router.log[from:] {
+					if d.Dir == 0 {
+						res[k].Sent = true
+					}
+				}
+				e.Router.mu.Unlock()
 			}
 			scancel()
 			e.Close()
@@ -283,8 +291,77 @@ func (r *sdReporter) fail(key, desc, detail string) {
 	}
 }
 
+// sdInvalidSpec: does InitialPacketSpec.validate (u_initial_packet_spec.go) have to refuse this
+// spec for this client configuration? Stated here from the documented ranges, not by calling it.
+func sdInvalidSpec(c sdCase) string {
+	if c.Spec == nil {
+		return ""
+	}
+	ips := &c.Spec.InitialPacketSpec
+	maxPkt := 1252
+	if c.Cli == 1 && c.Srv != 6 {
+		maxPkt = 1200
+	}
+	switch {
+	case ips.SrcConnIDLength < 0 || ips.SrcConnIDLength > 20:
+		return "SrcConnIDLength"
+	case ips.DestConnIDLength != 0 && (ips.DestConnIDLength < 8 || ips.DestConnIDLength > 20):
+		return "DestConnIDLength"
+	case ips.InitPacketNumber > 1<<62-1:
+		return "InitPacketNumber"
+	case ips.InitPacketNumberLength > 4:
+		return "InitPacketNumberLength"
+	}
+	for _, l := range ips.InitPacketNumberLengths {
+		if l < 1 || l > 4 {
+			return "InitPacketNumberLengths"
+		}
+	}
+	first := 0
+	if len(ips.InitPacketNumberLengths) > 0 {
+		first = int(ips.InitPacketNumberLengths[0])
+	} else if ips.InitPacketNumberLength != 0 {
+		first = int(ips.InitPacketNumberLength)
+	}
+	if first > 0 && first < 8 && ips.InitPacketNumber >= 1<<(8*uint(first)) {
+		return "InitPacketNumber does not fit its encoding"
+	}
+	if m := c.Spec.UDPDatagramMinSize; m < 0 || (m > 0 && m < 1200) || m > 1452 {
+		return "UDPDatagramMinSize"
+	}
+	for _, pl := range ips.InitialPackets {
+		if pl.CryptoLength < 0 {
+			return "CryptoLength"
+		}
+		if pl.PacketSize != 0 && (pl.PacketSize < 1200 || pl.PacketSize > maxPkt) {
+			return "PacketSize"
+		}
+	}
+	return ""
+}
+
 func (rep *sdReporter) judge(c sdCase, res []sdResult, leak string) {
 	base := "simdial/" + c.Q + "/"
+	if why := sdInvalidSpec(c); why != "" {
+		// the dial has to fail with the validation error, at once, with nothing on the wire
+		for k, r := range res {
+			if r.Phase == "handshake" && strings.Contains(r.Err, "invalid QUICSpec") && !r.Sent {
+				rep.dist["rejected by validate: "+why]++
+				continue
+			}
+			rep.fail("simdial/derived/invalid-accepted", fmt.Sprintf("dial#%d: a spec that cannot be sent (%s) was not refused by InitialPacketSpec.validate before sending: result %+v", k+1, why, r), c.String())
+		}
+		if leak != "" {
+			rep.fail(base+"leak-or-panic", leak, c.String())
+		}
+		return
+	}
+	for k, r := range res {
+		if strings.Contains(r.Err, "invalid QUICSpec") {
+			rep.fail("simdial/derived/validate-unexpected", fmt.Sprintf("dial#%d: InitialPacketSpec.validate refuses a spec within the documented ranges: %s", k+1, r.Err), c.String())
+			res[k] = sdResult{}
+		}
+	}
 	key := func(k int, phase string) string {
 		if c.Kind != "" {
 			return "simdial/derived/" + c.Kind
@@ -365,6 +442,9 @@ func runSimDial(w *bufio.Writer, seed uint64, n int, args []string) {
 			fmt.Fprintf(w, "SAMPLE\t%s -> %+v\n", c.String(), res)
 		}
 		nCases++
+		if c.Spec != nil && c.Kind != "" {
+			udSpecDist(rep.dist, c.Spec)
+		}
 		rep.dist["server="+sdSrvNames[c.Srv]]++
 		rep.dist[fmt.Sprintf("faults=%d", len(c.Faults))]++
 	}
@@ -420,10 +500,11 @@ func runSimDial(w *bufio.Writer, seed uint64, n int, args []string) {
 	}
 	// --- D: directed families ---------------------------------------------------------------
 	if only == "" {
-		// lost Initial datagrams of a flight cut into many small datagrams (retransmission paths)
-		sdFamily(r.Fork(), "retx", 8+n/5, emit)
-		// a fixed QUICFrames layout that cuts its slice at an offset: an unrecovered panic inside
-		// the connection's run loop would kill this process, so the family runs in a child
+		// An unrecovered panic inside a connection's run loop would kill this process, so the two
+		// directed families run in a child each:
+		// lost Initial datagrams of a flight cut into many small datagrams (retransmission paths),
+		sdChild(w, rep, seed, "retx", 8+n/5)
+		// a fixed QUICFrames layout that cuts its slice at an offset
 		sdChild(w, rep, seed, "fixed-split", 6+n/10)
 	}
 	// --- C: nil spec == plain Transport ---------------------------------------------------
@@ -534,7 +615,7 @@ func sdChild(w *bufio.Writer, rep *sdReporter, seed uint64, family string, n int
 		switch {
 		case strings.HasPrefix(ln, "START\t"):
 			last = strings.TrimPrefix(ln, "START\t")
-		case strings.HasPrefix(ln, "CASE ") || strings.HasPrefix(ln, "MONFAIL\t"):
+		case strings.HasPrefix(ln, "CASE ") || strings.HasPrefix(ln, "MONFAIL\t") || strings.HasPrefix(ln, "DIST\t"):
 			fmt.Fprintln(w, ln)
 		}
 	}
